@@ -482,12 +482,9 @@ func recoverTable(s *session, o *opt.Options) error {
 	// Set sequence number.
 	rec.setSeqNum(maxSeq)
 
-	// Create new manifest.
-	if err := s.create(); err != nil {
-		return err
-	}
-
-	// Commit.
+	// Commit. The session has no manifest yet, so this creates one that
+	// holds the recovered tables and only then makes it current; an empty
+	// manifest must never be current in between.
 	return s.commit(rec, false)
 }
 
